@@ -1350,7 +1350,7 @@ def run(ctx: Ctx):
     session_family(ctx)
     if hanging():
         return
-    derived_family(ctx, ctx.budget(220, 5000))
+    derived_family(ctx, ctx.budget(220, 4000))
     if hanging():
         return
     big_lengths(ctx)
